@@ -170,6 +170,7 @@ type provCtx struct {
 	n    int
 	env  map[*ssa.Parameter][]ssa.Value // actuals of the calls followed in this query
 	fenv map[*ssa.FreeVar][]ssa.Value
+	genv map[ssa.Value][]ssa.Value // any other value the caller knows the meaning of (e.g. a field of a by-value parameter)
 }
 
 func (w *World) prov(v ssa.Value, o provOpts) *Prov {
@@ -186,6 +187,11 @@ func (w *World) prov(v ssa.Value, o provOpts) *Prov {
 				c.env[x] = vs
 			case *ssa.FreeVar:
 				c.fenv[x] = vs
+			default:
+				if c.genv == nil {
+					c.genv = map[ssa.Value][]ssa.Value{}
+				}
+				c.genv[k] = vs
 			}
 		}
 	}
@@ -226,6 +232,12 @@ func (c *provCtx) visit(v ssa.Value) {
 	}
 	if c.o.stopAt != nil && c.o.stopAt(v) {
 		c.root(Root{Kind: ROther, Val: v})
+		return
+	}
+	if vs, ok := c.genv[v]; ok {
+		for _, a := range vs {
+			c.visit(a)
+		}
 		return
 	}
 	switch x := v.(type) {
